@@ -136,6 +136,12 @@ func runGenerateRange(start, stop, step int64, explicitStep bool) {
 	// the numbers it was seen to use)
 	if cls == "ok" {
 		z.EmitD("range", []string{Hs(rg)}, fmt.Sprintf("ok:%d,%d,%d", start, stop, step))
+		// the specification's list of values (ZoneSpec gen_values): as many, from
+		// the same first to the same last value as the records delivered
+		if wantN < 65535 || start == 0 || (stop == math.MaxInt64 && (stop-start)%step == 0) {
+			z.EmitD("genvalues", []string{strconv.FormatInt(start, 10), strconv.FormatInt(stop, 10), strconv.FormatInt(step, 10)},
+				fmt.Sprintf("%d,%d,%d", n-1, start, start+(n-2)*step))
+		}
 	} else {
 		z.EmitD("range", []string{Hs(rg)}, cls)
 	}
